@@ -24,7 +24,7 @@ LEVEL = 'exploration'
 RUNS = {'quick': 8000, 'thorough': 500000}
 BATCH = {'quick': 100, 'thorough': 1000}
 BUDGET_S = {'quick': 70.0, 'thorough': 1500.0}
-RULE = ('one run = a hand-packed minimal map (BSP v19/20/21, optional L4D2 header order, optional LZMA-compressed lumps) '
+RULE = ('one run = a hand-packed minimal map (BSP v19/20/21 and the INFRA v22, Chaos v25, VitaminSource v43 layouts; optional L4D2 header order, optional LZMA-compressed lumps) '
         'opened with the library, a seeded subset of views accessed first, seeded well-formed values assigned to a seeded '
         'subset of the 16 value groups (texinfo/texdata/names, planes, vertexes+surfedges, primitives, faces+orig+HDR, '
         'brushes+sides, nodes+leafs, water info, visibility, cubemaps, overlays, entity lump with either output separator, '
